@@ -6,7 +6,7 @@ for d in seeded/*/; do
     name=$(basename "$d"); prop=${name%%-*}
     [ -f "$d/patch.diff" ] || continue
     for id in $prop "$@"; do
-        r=$(tools/try_mutant.sh "$PWD/$d/patch.diff" "$id" 2>&1 | tail -1 | cut -c1-200)
+        r=$(tools/try_mutant.sh "$PWD/$d/patch.diff" "$id" 2>&1 | grep -a " rc=" | tail -1 | cut -c1-200)
         echo "$name :: $r"
     done
 done
